@@ -346,8 +346,13 @@ def sim_as_completed(fs, timeout=None):
 def sim_wait(fs, timeout=None, return_when='ALL_COMPLETED'):
     fs = list(fs)
     if return_when == 'FIRST_COMPLETED':
-        while not any(f.done() for f in fs):
+        while fs and not any(f.done() for f in fs):
             fs[0].ex._step()
+    elif return_when == 'FIRST_EXCEPTION':
+        # returns as soon as any future has finished by raising; tasks not yet started stay pending
+        while fs and not any(f.done() and f.state == 'done' and f._exc is not None for f in fs) and not all(f.done() for f in fs):
+            nxt = next(f for f in fs if not f.done())
+            nxt.ex._step()
     else:
         for f in fs:
             f.ex._drive_until(f)
